@@ -238,6 +238,8 @@ func plan() []group {
 		// its own case: on the unrepaired tree each one ends its child (watchdog)
 		// and the driver resumes the batch behind it
 		{"cron-skipped-day", len(skippedDayCases), runCronSkippedDay},
+		// same for byte sizes with an out-of-range decimal exponent (metadata)
+		{"bytesize-exponent", len(byteSizeExponentCases), runByteSizeExponent},
 		{"cron-slow-walk", mon.Pick(1, 3), runCronSlowWalk},
 		{"cron-options", len(allOptionSets()), runCronOptions},
 		{"cron-truncate", len(cronSeeds), runCronTruncate},
@@ -267,10 +269,11 @@ func plan() []group {
 func TestCheck(t *testing.T) {
 	rec = mon.Open("C07")
 	defer rec.Close()
+	defer cleanupScratch()
 	rec.Note("rule", "one evaluation = one call into a dapr/kit entry point made under recover() with its exact input journalled first; the only judgement is that it returns. A case is one base input (grammar-/structure-derived or an enumerated length combination) with its mutation fan (bit flips, truncation - every position for short inputs -, deletion, duplication, splice, boundary integers, long repeats, invalid UTF-8), run through the entry points of its group; every schedule cron.Parse accepts is also asked for Next from ordinary, year-9999 and zone-transition instants, every key crypto.ParseKey accepts is used with every algorithm name. Non-trivial = the case passed at least one non-empty input; distinct = group + hash of the journalled inputs.")
 	rec.Note("require", []string{
 		"cron.Parse.returned_ok", "cron.Parse.returned_error", "cron.Next.returned_ok", "cron.next.zero_time", "cron.next.from_year_9999", "cron.next.from_transition",
-		"cron.tz_prefix_without_fields", "cron.skipped_day_cases",
+		"cron.tz_prefix_without_fields", "cron.skipped_day_cases", "metadata.bytesize_exponent_cases",
 		"time.ParseISO8601Duration.returned_ok", "time.ParseISO8601Duration.returned_error", "time.ParseTime.returned_ok",
 		"crypto.ParseKey.returned_ok", "crypto.ParseKey.returned_error", "crypto.SerializeKey.returned_ok", "keys.parsed_key_used", "keys.mutant_parsed_to_different_key",
 		"pem.DecodePEMPrivateKey.returned_ok", "pem.DecodePEMPrivateKey.returned_error", "pem.DecodePEMCertificatesChain.returned_ok", "pem.DecodePEMCertificates.returned_error",
